@@ -273,3 +273,103 @@ func init() {
 		},
 	})
 }
+
+func shapeUnits(tier string, entry string, variants [][]string, stressVariants [][]string) []Unit {
+	return shapeUnitsMax(tier, entry, variants, stressVariants, 100)
+}
+
+// shapeUnitsMax limits the jump-stress family to shapes with at most maxLeaves leaves.
+func shapeUnitsMax(tier string, entry string, variants [][]string, stressVariants [][]string, maxLeaves int) []Unit {
+	maxM, pol := shapeTierParams(tier)
+	var units []Unit
+	for _, src := range shapeFamily(maxM, pol, false, "BI") {
+		for _, v := range variants {
+			units = append(units, Unit{entry, append([]string{src}, v...)})
+		}
+	}
+	for _, shp := range stressShapes() {
+		n := len(leafSlots(shp))
+		if n > maxLeaves {
+			continue
+		}
+		src := assignLeaves(shp, strings.Repeat("v", n))
+		for _, v := range stressVariants {
+			units = append(units, Unit{entry, append([]string{src}, v...)})
+		}
+		if n <= 6 {
+			for _, lv := range leafVariants(shp, leavesStandard) {
+				if lv != src {
+					units = append(units, Unit{entry, append([]string{lv}, stressVariants[0]...)})
+				}
+			}
+		}
+	}
+	return units
+}
+
+func shapeBounds(extra map[string]interface{}) func(tier string) map[string]interface{} {
+	return func(tier string) map[string]interface{} {
+		maxM, _ := shapeTierParams(tier)
+		b := map[string]interface{}{"shapes": "all typed shapes with ≤" + itoa(maxM) + " internal nodes (leaf variants: all variables, each single leaf a symbolic constant, all constants, one literal) + jump-stress family",
+			"configurations": "all 16 optimisation subsets per unit"}
+		for k, v := range extra {
+			b[k] = v
+		}
+		return b
+	}
+}
+
+func shapeBudget(tier string) time.Duration {
+	if tier == "thorough" {
+		return 120 * time.Minute
+	}
+	return 10 * time.Minute
+}
+
+func init() {
+	registerProp(&PropSpec{
+		ID: "C03",
+		Units: func(tier string, seed int64, sh *Shared) []Unit {
+			return shapeUnits(tier, "VerifC03", [][]string{{"v"}, {"f"}}, [][]string{{"v"}})
+		},
+		Reach:  []string{"trace"},
+		Bounds: shapeBounds(map[string]interface{}{"effects": "every VariableFetcher.Get and every call of the registered operators p,q (arguments, result/failure) as symbolic terms; fetches may fail in mode f"}),
+		Rule:   "one unit per (shape, fault mode); each unit runs all 16 subsets; a state is one symbolic path; the oracle tree is re-read from Dump",
+		Assumptions: []string{"a two-leaf and/or under FastEvaluation may fetch both leaves (stated by the property); both the strict and the relaxed trace are accepted there"},
+		WallBudget:  shapeBudget,
+	})
+	registerProp(&PropSpec{
+		ID: "C04",
+		Units: func(tier string, seed int64, sh *Shared) []Unit {
+			c := tierConfigs(tier)
+			return shapeUnitsMax(tier, "VerifC04", [][]string{{"split", c}, {"all", c}}, [][]string{{"split", c}}, 7)
+		},
+		Reach:  []string{"definite", "completion-succeeds", "larger-mask-definite", "all-available"},
+		Bounds: shapeBounds(map[string]interface{}{"availability": "arbitrary mask (one symbolic Boolean per variable), arbitrary larger mask, completions as fresh symbols"}),
+		Rule:   "one unit per (shape, variant); all 16 subsets per unit; a state is one symbolic path through TryEval / Eval / TryEval",
+		Assumptions: []string{"Eval on the completion succeeds (property quantifier)"},
+		WallBudget:  shapeBudget,
+	})
+	registerProp(&PropSpec{
+		ID: "C05",
+		Units: func(tier string, seed int64, sh *Shared) []Unit {
+			c := tierConfigs(tier)
+			return shapeUnitsMax(tier, "VerifC05", [][]string{{c}}, [][]string{{c}}, 7)
+		},
+		Reach:  []string{"kleene-definite", "kleene-undecided", "dne"},
+		Bounds: shapeBounds(map[string]interface{}{"availability": "arbitrary mask (one symbolic Boolean per variable)"}),
+		Rule:   "one unit per shape; all 16 subsets per unit; reference = strong Kleene evaluation of the source tree",
+		Assumptions: []string{"no sub-expression fails under the underlying binding (property quantifier; assumed via strict reference evaluation)"},
+		WallBudget:  shapeBudget,
+	})
+}
+
+// tierConfigs: the optimisation subsets run per unit by the TryEval checks. quick uses a
+// covering subset (none, all, FastEvaluation only, ReduceNesting+Reordering, folding+fast);
+// thorough all 16.
+func tierConfigs(tier string) string {
+	if tier == "thorough" {
+		return "all"
+	}
+	return "0000,1111,0010,0101,1010"
+}
